@@ -669,7 +669,11 @@ func c12PathIndexPositional(c *Ctx, pk *packages.Package) {
 			}
 			// the instance is named by what the path addresses (the field tag the base path ends in), so that renaming
 			// the receiver type or the locals does not turn a listed finding into a new one
-			inst := fr.Decl.Name.Name + "/index-under-" + c12BaseTag(info, body, call.Args[0])
+			// (not by the enclosing function either: the loop may be moved into a helper)
+			inst := "index-under-" + c12BaseTag(info, body, call.Args[0])
+			if strings.HasSuffix(inst, "path-parameter") || strings.HasSuffix(inst, "expr") {
+				inst = fr.Decl.Name.Name + "/" + inst
+			}
 			v := identObj(info, idx)
 			if v == nil {
 				c.Ob(rule, inst, call.Pos(), false, true, "the appended index %s is not a local variable the rule can classify", exprString(idx))
@@ -715,7 +719,8 @@ func c12IndexValueRemapped(c *Ctx, pk *packages.Package) {
 				}
 			}
 		}
-		if !hasStr || len(idx) == 0 || sf.Parent() != nil {
+		_ = hasStr
+		if len(idx) == 0 || sf.Parent() != nil || !strings.HasSuffix(p.FileRel(sf.Pos()), "image_filter.go") {
 			continue
 		}
 		for _, call := range callsIn(sf) {
@@ -765,6 +770,14 @@ func c12IndexValueRemapped(c *Ctx, pk *packages.Package) {
 				}
 				if u, ok := stripConv(el).(*ssa.UnOp); ok && u.Op == token.MUL {
 					if ia, ok := u.X.(*ssa.IndexAddr); ok {
+						// a table lookup `table[oldValue]`: the index is itself an element that was loaded (the old
+						// index value), not the position counter of a loop over the same slice - this form also holds
+						// when the table arrives as a parameter of an extracted helper
+						if iu, ok := stripConv(ia.Index).(*ssa.UnOp); ok && iu.Op == token.MUL {
+							if _, isElem := iu.X.(*ssa.IndexAddr); isElem {
+								fromTable = true
+							}
+						}
 						sliceBack(ia.X, func(x ssa.Value) bool {
 							if _, isMake := x.(*ssa.MakeSlice); isMake && types.Identical(x.Type(), ia.X.Type()) {
 								fromTable = true
